@@ -23,7 +23,7 @@ META = {
         'with a mask filter_thru sums the interpolated flux only, interpolation runs along the axis that is summed (derived from the '
         'djs_maskinterp dispatch), and every band is divided by its own zero-guarded response sum. NOT decided: inverse to 1e-6 A, '
         'vacuum > air, linearity and mean-value bounds of filter_thru (numerical).'),
-    'floors': {'C19.FACT': 3, 'C19.THRESH': 6, 'C19.NOMUT': 3, 'C19.UNITS': 5, 'C19.AB': 4, 'C19.FILTER': 5},
+    'floors': {'C19.SCALAR': 2, 'C19.FACT': 3, 'C19.THRESH': 6, 'C19.NOMUT': 3, 'C19.UNITS': 5, 'C19.AB': 4, 'C19.FILTER': 5},
 }
 
 ASTRO = 'pydl/goddard/astro.py'
@@ -135,11 +135,25 @@ def check_refraction(ctx, repo):
         ctx.need(len(cmps) == 2, '%s: expected two threshold tests' % q)
         # restore after the formula: last write to the result is result[g] = converted[g]
         out = 'vacuum' if q == 'airtovac' else 'air'
-        res = [st for st in walk_local(f.node) if isinstance(st, ast.Assign) and isinstance(st.targets[0], ast.Subscript) and src(st.targets[0].value) == out]
+        conv0 = [src(st.targets[0]) for st in walk_local(f.node) if isinstance(st, ast.Assign) and '.to(Angstrom).value' in src(st.value)]
+        item = [st for st in walk_local(f.node) if isinstance(st, ast.Assign) and isinstance(st.targets[0], ast.Subscript) and src(st.targets[0].value) == out]
+        wh = [st for st in walk_local(f.node) if isinstance(st, ast.Assign) and src(st.targets[0]) == out and isinstance(st.value, ast.Call)
+              and call_name(st.value) == 'where' and len(st.value.args) == 3]
+        res = item + wh
         formula = [st for st in walk_local(f.node) if isinstance(st, ast.Assign) and src(st.targets[0]) == out and 'fact' in src(st.value)]
-        ok = len(res) == 1 and formula and res[0].lineno > formula[-1].end_lineno and src(res[0].targets[0].slice) == 'g' \
-            and isinstance(res[0].value, ast.Subscript) and src(res[0].value.slice) == 'g' and isinstance(res[0]._parent, ast.If) \
+        ok = len(res) == 1 and formula and res[0].lineno > formula[-1].end_lineno and isinstance(res[0]._parent, ast.If) \
             and src(res[0]._parent.test) == 'g is not None' and not any(isinstance(a, (ast.For, ast.While)) for a in ancestors(res[0]))
+        if ok and item:
+            ok = src(res[0].targets[0].slice) == 'g' and isinstance(res[0].value, ast.Subscript) and src(res[0].value.slice) == 'g'
+        elif ok:
+            a0, a1, a2 = res[0].value.args
+            ok = src(a0) == 'g' and src(a2) == out and bool(conv0) and src(a1) == conv0[0]
+        # 0-d input (numpy scalar, 0-d array, scalar Quantity) makes the formula's result an immutable numpy scalar
+        ctx.check('C19.SCALAR', not item, f, item[0] if item else (res[0] if res else f.node),
+                  '%s: the sub-threshold entries are restored without item assignment into the formula\'s result (%s)' % (q, src(res[0])[:50] if res else ''),
+                  msg='%s: `%s` assigns into the result of the formula; for 0-d input (np.float64, 0-d array, scalar Quantity at or above 2000 A) that result '
+                      'is a NumPy scalar and the assignment raises TypeError, so float, array and Quantity input do not give the same result'
+                      % (q, src(item[0])[:40] if item else ''), construct='%s item-assignment restore' % q)
         ctx.check('C19.THRESH', bool(ok), f, res[0] if res else f.node, '%s: sub-threshold entries are restored after the formula (last write): %s' % (q, src(res[0]) if res else ''),
                   msg='%s: the entries below 2000 A are not restored after the conversion formula as the last write' % q, construct='%s restore' % q)
         rets = [r for r in walk_local(f.node) if isinstance(r, ast.Return) and r.value is not None and r.lineno < formula[0].lineno] if formula else []
@@ -162,7 +176,14 @@ def check_refraction(ctx, repo):
     loop = [n for n in walk_local(f.node) if isinstance(n, ast.For)]
     ctx.need(loop and conv_name, 'airtovac: iteration loop / converted value not found')
     cn = conv_name[0]
-    first_use = [n for n in walk_local(loop[0]) if isinstance(n, ast.Name) and n.id == 'vacuum' and isinstance(n.ctx, ast.Load)][0]
+    s2in = [st for st in loop[0].body if isinstance(st, ast.Assign) and src(st.targets[0]) == 'sigma2' and 'vacuum' in src(st.value)]
+    ctx.check('C19.UNITS', bool(s2in), f, loop[0], 'airtovac: every pass recomputes sigma2 from the current vacuum estimate',
+              msg='airtovac: sigma2 is not recomputed from the updated vacuum wavelength inside the loop: the fixed point is iterated only once in effect '
+                  '(round-trip error 1e-5 .. 1e-4 A)', construct='sigma2 outside the iteration')
+    uses = [n for n in walk_local(loop[0]) if isinstance(n, ast.Name) and n.id == 'vacuum' and isinstance(n.ctx, ast.Load)]
+    if not uses:
+        return
+    first_use = uses[0]
     bad = []
     for d, v in fa.defs(first_use):
         if d is None or v is None or any(d is x for x in ast.walk(loop[0])):
